@@ -6,7 +6,7 @@ from vlib.run import *
 def run(chk, replay=None):
     rng = random.Random(chk.seed)
     th = chk.tier == 'thorough'
-    cases = streams.corpus_lines() + streams.fixture_lines() + streams.crossclass_lines()[::2] + streams.deep_lines()[::3] + streams.grammar_lines(rng, 2500 if th else 500, 0.1) + streams.anyjson_lines(rng, 1500 if th else 300) + streams.wrapper_lines(rng, 1500 if th else 300) + streams.search_lines(rng, None if th else 300)
+    cases = streams.corpus_lines() + streams.fixture_lines() + streams.crossclass_lines()[::2] + streams.long_value_lines() + streams.deep_lines()[::3] + streams.grammar_lines(rng, 2500 if th else 500, 0.1) + streams.anyjson_lines(rng, 1500 if th else 300) + streams.wrapper_lines(rng, 1500 if th else 300) + streams.search_lines(rng, None if th else 300)
     streams.note_distribution(chk, cases)
     chk.rule = ("grammar lines, arbitrary JSON lines and every value kind under every operator / wrapper x combinations of --redactNumbers / --redactBooleans / --redactIPs / --replacement "
                 "(replacement not e-mail-shaped; incl. empty, '$'-prefixed, quotes, non-ASCII); first-pass output fed back; non-trivial = distinct (flags, line) pairs whose first pass changed the line")
